@@ -260,9 +260,10 @@ def selectOf {V} (n : Node V) (out : V) : Except Err (List Key) := do
     if ws.all b.ends.contains then pure ws else throw { cls := .badBranchEnd })
   pure sel.flatten
 
-/-- ends of some branch of the node that no branch selected -/
+/-- ends of some branch of the node that no branch selected — except the successors the node
+    also triggers through a plain control edge (those are routed to whatever the branches say) -/
 def skippedOf {V} (n : Node V) (selected : List Key) : List Key :=
-  (n.branches.flatMap (·.ends)).eraseDups.filter (fun e => !selected.contains e)
+  (n.branches.flatMap (·.ends)).eraseDups.filter (fun e => !selected.contains e && !n.controls.contains e)
 
 /-- `calculateBranch`: evaluate every branch of the node on its output; nodes that are an
     end of some branch and selected by none are reported skipped. -/
